@@ -131,6 +131,13 @@ def build_archives(bdir, variant, extra_defs, log):
             if rc != 0:
                 log("BUILD-ERROR: ar " + o)
                 return None
+            if name == "cxx":
+                # the library's C++ objects allocate through a seam of their own, so that the ledger sees what they create
+                # and does not see what the harness allocates while a library call is on the stack
+                rc, o, _ = run(["objcopy", "--redefine-sym", "_Znwm=__verif_lib_Znwm", "--redefine-sym", "_Znam=__verif_lib_Znam", tmp])
+                if rc != 0:
+                    log("BUILD-ERROR: objcopy " + o)
+                    return None
             os.rename(tmp, arch)
             if not os.environ.get("VERIF_SAN"):       # a coverage build needs the .gcno files next to the objects
                 shutil.rmtree(odir, ignore_errors=True)
@@ -139,7 +146,7 @@ def build_archives(bdir, variant, extra_defs, log):
 
 WRAPS = ["malloc", "calloc", "realloc", "free", "strdup",
          "readv", "writev", "poll", "fcntl", "close", "dup", "getsockopt", "sendmsg", "recvmsg", "sendto",
-         "_mpt_abort", "_ZdlPv", "_ZdlPvm"]
+         "_mpt_abort", "_ZdlPv", "_ZdlPvm", "_ZdaPv"]
 
 
 def build_world(bdir, world, archives, variant, log):
